@@ -3127,6 +3127,14 @@ class _Simu(_IObserver, _params.Updatable, ABC):
 
         is1d = values.ndim == 1
 
+        if not is1d and Ne != Nn and values.shape[0] == Ne:
+            # an (Ne, i) array holds element values whatever Ne * i is divisible by:
+            # do not re-read it as nodal values because of a size coincidence
+            if nodeValues:
+                return self.mesh.Get_Node_Values(values.reshape(Ne, -1))
+            else:
+                return values.reshape(Ne, -1)
+
         if nodeValues:
             shape = -1 if is1d else (Nn, -1)
             if values.size % Nn == 0:
